@@ -5,7 +5,10 @@ package main
 // compared with the sequential results.
 
 import (
+	"bytes"
+	"compress/zlib"
 	"fmt"
+	"io"
 	"io/ioutil"
 	"path/filepath"
 	"strings"
@@ -17,6 +20,7 @@ import (
 func init() { props["c19"] = runRace }
 
 func runRace(c *ctx) error {
+	longBlocks := 0
 	rounds := 6
 	goroutines := 8
 	perG := 120
@@ -77,9 +81,25 @@ func runRace(c *ctx) error {
 		reftable.VerifSetSuppress(merged, true)
 		type target struct {
 			name string
-			t    tableLike
+			t    tableLike // shared by the goroutines; untouched before they start
+			ref  tableLike // a twin opened from the same bytes: the sequential reference
 			qs   []string
 		}
+		memRef, _ := openReader(data)
+		bs2, err := reftable.NewFileBlockSource(fn)
+		if err != nil {
+			return err
+		}
+		fileRef, err := reftable.NewReader(bs2, fn)
+		if err != nil {
+			return err
+		}
+		tabs2, _ := openTables(ts)
+		mergedRef, err := reftable.NewMerged(tabs2, hid)
+		if err != nil {
+			return err
+		}
+		reftable.VerifSetSuppress(mergedRef, true)
 		// a reflog of incompressible records in small blocks: some log blocks are longer than the read window
 		var inc tableCase
 		inc.cfg = tcfg{BlockSize: uint32(150 + c.rng.Intn(60)), Exact: true, Restart: 3}
@@ -91,20 +111,39 @@ func runRace(c *ctx) error {
 			c.rng.Read(h2)
 			nm := make([]byte, 6)
 			c.rng.Read(nm)
+			msg := make([]byte, 10+c.rng.Intn(30))
+			c.rng.Read(msg)
 			inc.logs = append(inc.logs, reftable.LogRecord{RefName: fmt.Sprintf("r%03d", k), UpdateIndex: 5, New: h1, Old: h2,
-				Name: hx(nm), Email: hx(nm[:3]), Time: c.rng.Uint64(), Message: hx(nm)})
+				Name: hx(nm), Email: hx(nm[:3]), Time: c.rng.Uint64(), Message: string(msg)})
 		}
-		var incRd *reftable.Reader
-		if w, d := writeTable(inc.cfg, inc.min, inc.max, nil, inc.logs); strings.HasPrefix(w, "ok:") {
-			incRd, _ = openReader(d)
+		var incRd, incRef *reftable.Reader
+		for try := 0; try < 80 && incRd == nil; try++ {
+			if try > 0 {
+				// other random content, slightly other block size
+				inc.cfg.BlockSize = uint32(150 + c.rng.Intn(60))
+				for k := range inc.logs {
+					c.rng.Read(inc.logs[k].New)
+					c.rng.Read(inc.logs[k].Old)
+					msg := make([]byte, 10+c.rng.Intn(30))
+					c.rng.Read(msg)
+					inc.logs[k].Message = string(msg)
+				}
+			}
+			if w, d := writeTable(inc.cfg, inc.min, inc.max, nil, inc.logs); strings.HasPrefix(w, "ok:") {
+				if n := longLogBlocks(d, inc.cfg.BlockSize); n > 0 {
+					incRd, _ = openReader(d)
+					incRef, _ = openReader(d)
+					longBlocks += n
+				}
+			}
 		}
 		targets := []target{
-			{"reader/memory", memRd, tableQueries(c, &big, "c01")},
-			{"reader/file", fileRd, tableQueries(c, &big, "c01")},
-			{"merged", merged, stackQueries(c, ts, 6)},
+			{"reader/memory", memRd, memRef, tableQueries(c, &big, "c01")},
+			{"reader/file", fileRd, fileRef, tableQueries(c, &big, "c01")},
+			{"merged", merged, mergedRef, stackQueries(c, ts, 6)},
 		}
 		if incRd != nil {
-			targets = append(targets, target{"reader/incompressible-logs", incRd, tableQueries(c, &inc, "c02")})
+			targets = append(targets, target{"reader/incompressible-logs", incRd, incRef, tableQueries(c, &inc, "c02")})
 		}
 		for _, tg := range targets {
 			if len(tg.qs) == 0 {
@@ -113,7 +152,7 @@ func runRace(c *ctx) error {
 			// sequential reference
 			want := map[string]string{}
 			for _, q := range tg.qs {
-				want[q] = runQuery(tg.t, q)
+				want[q] = runQuery(tg.ref, q)
 			}
 			var wg sync.WaitGroup
 			bad := make([]int, goroutines)
@@ -147,6 +186,48 @@ func runRace(c *ctx) error {
 			c.emit("concurrent", fmt.Sprintf("%s round=%d goroutines=%d queries=%d each=%d", tg.name, round, goroutines, len(tg.qs), perG), res)
 		}
 		fileRd.Close()
+		fileRef.Close()
 	}
+	c.stats["log_blocks_longer_than_read_window"] = longBlocks
 	return nil
+}
+
+// longLogBlocks counts the log blocks of a written table whose zlib stream does not fit
+// the reader's first window (the block size): reading them takes the retry path.
+func longLogBlocks(data []byte, blockSize uint32) int {
+	rd, _ := openReader(data)
+	if rd == nil {
+		return 0
+	}
+	present, off, end, hdr := reftable.VerifLogSpan(rd)
+	if !present || end > uint64(len(data)) {
+		return 0
+	}
+	n := 0
+	for off < end {
+		start := off // the reader's window starts here
+		if off == 0 {
+			off = uint64(hdr) // the first block of a file begins after the file header
+		}
+		if off+4 >= end || data[off] != 'g' {
+			break
+		}
+		br := bytes.NewReader(data[off+4 : end])
+		zr, err := zlib.NewReader(br)
+		if err != nil {
+			break
+		}
+		if _, err := io.Copy(ioutil.Discard, zr); err != nil {
+			break
+		}
+		off += uint64(4 + len(data[off+4:end]) - br.Len())
+		if off-start > uint64(blockSize) {
+			n++
+		}
+		// padded tables: skip zero padding up to the next block
+		for off < end && data[off] == 0 {
+			off++
+		}
+	}
+	return n
 }
